@@ -110,8 +110,8 @@ def check_property(pid, tier, seed):
             kr = kani_runner.run([os.path.join(VERIF, f) for f in k["files"]], sel,
                                  annotations=k.get("annotations", ()), use_map_shim=k.get("map_shim", False),
                                  map_shim_files=k.get("map_shim_files", ()),
-                                 timeout_s=k.get("timeout_s", 2400) if tier == "quick" else 14400,
-                                 harness_timeout=k.get("harness_timeout", "900s") if tier == "quick" else "3000s",
+                                 timeout_s=k.get("timeout_s", 2400) if tier == "quick" else 28800,
+                                 harness_timeout=k.get("harness_timeout", "900s") if tier == "quick" else "7200s",
                                  extra_args=k.get("extra_args", ()), inject=inject,
                                  jobs=(k.get("thorough_jobs") if tier == "thorough" else k.get("jobs")))
             cmds.append(re.sub(r"/var/tmp/[^ ]*", "<scratch>/target", kr.cmd))
